@@ -71,6 +71,20 @@ fn list(out: &mut Vec<String>, it: impl Iterator<Item = i64>) {
     out.extend(v.iter().map(|x| x.to_string()));
 }
 
+/// clone() and clone_from() (into a tensor that had another shape) give a tensor with the same shape and the same
+/// elements that compares equal in both directions
+fn copies_agree<const D: usize>(t: &Tensor<i64, D>) -> bool {
+    let c = t.clone();
+    let mut other = *t.dims();
+    other.reverse();
+    if D > 0 {
+        other[0] += 1;
+    }
+    let mut d = Tensor::<i64, D>::new(other, 0);
+    d.clone_from(t);
+    [c, d].iter().all(|u| u.dims() == t.dims() && u.iter().eq(t.iter()) && u == t && t == u)
+}
+
 fn run<const D: usize>(t: &[&str]) -> String {
     let mut at = 1;
     let dims: [usize; D] = arr(t, &mut at);
@@ -127,10 +141,22 @@ fn run<const D: usize>(t: &[&str]) -> String {
                     None => out.push("P".into()),
                 }
             }
-            "it" => list(&mut out, tensor.iter().copied()),
+            // iteration, also through clone() and through clone_from() into a tensor of another shape: a copy
+            // that iterates differently or does not compare equal is printed as the empty list (never the iteration of a
+            // constructed tensor: extents are positive)
+            "it" => {
+                if copies_agree(&tensor) {
+                    list(&mut out, tensor.iter().copied())
+                } else {
+                    out.push("0".into())
+                }
+            }
             // dims() and dim(i) must tell the same story: a disagreement is printed as 0 (never a valid extent)
-            "dm" => out.extend(tensor.dims().iter().enumerate()
-                .map(|(i, d)| if tensor.dim(i) == *d { d.to_string() } else { "0".to_string() })),
+            "dm" => {
+                let same = copies_agree(&tensor);
+                out.extend(tensor.dims().iter().enumerate()
+                    .map(|(i, d)| if same && tensor.dim(i) == *d { d.to_string() } else { "0".to_string() }))
+            }
             "w" => match guarded(|| written(&tensor)) {
                 Some(b) => out.push(enc(&b)),
                 None => out.push("P".into()),
